@@ -26,7 +26,7 @@ ASSUMPTIONS = ["an injected connection-level errno means that connection is real
 PROBES = ["fault_in_handshake_client", "fault_in_handshake_server", "fault_on_send", "fault_on_recv", "peer_fin", "peer_rst",
           "client_vanishes_mid_handshake", "errno_EPIPE", "ssl_eof", "sibling_echo_completed"]
 BOUNDS = dict(quick=dict(payloads=4, call_index=8), thorough=dict(payloads=6, call_index=12))
-TIERS = dict(quick=dict(cases=8000, wall=45.0), thorough=dict(cases=500000, wall=420.0))
+TIERS = dict(quick=dict(cases=20000, wall=60.0), thorough=dict(cases=500000, wall=420.0))
 SIM_TIME_UNIT = "net steps"
 
 ERRNOS = netmod.CONN_ERRNOS
